@@ -136,6 +136,11 @@ def build():
     fs.append(Fmt("SEPX", "sepx_letter_g", sep="g", sepflags=allflags))
     fs.append(Fmt("SEPX", "sepx_prefix_suffix", sep="_", sepflags=allflags, prefix="x", suffix="h", radix=16, base=2, eradix=10))
     fs.append(Fmt("SEPX", "sepx_int_only_all", sep="_", sepflags={("integer", k): True for k in KINDS}))
+    # TWIN: separator-free counterparts of the SEPX formats that are not STANDARD
+    fs.append(Fmt("TWIN", "twin_hex_p", radix=16, base=2, eradix=10))
+    fs.append(Fmt("TWIN", "twin_hex_hexexp", radix=16, base=16, eradix=16))
+    fs.append(Fmt("TWIN", "twin_dec_hexexp", radix=10, base=10, eradix=16))
+    fs.append(Fmt("TWIN", "twin_prefix_suffix", prefix="x", suffix="h", radix=16, base=2, eradix=10))
     # RADIX
     for r in (2, 3, 8, 16, 36):
         fs.append(Fmt("RADIX", f"radix{r}", radix=r))
